@@ -171,10 +171,32 @@ def check(fx, rep, tier):
             hexenc = any(n == "hex::encode" for n in names)
             other_fmt = [s for s in short if s in ("encode_upper", "to_string", "format", "to_uppercase", "trim_start_matches", "trim_start", "strip_prefix", "truncate")]
             fmt_macro = any("format" in (n.get("exp") or "") for n, _ in F.walk(sb["hir"]["value"]) if n.get("exp"))
+            # `format!("0x{}", hex::encode(..))`: the compiler lowers the template to the byte string
+            # [2, '0', 'x', 0xC0 (plain `{}` of argument 0), 0]; exactly that template is the same writer
+            templates = [n["value"].get("v") for n, _ in F.walk(sb["hir"]["value"]) if n.get("k") == "Lit" and "FormatLiteral" in str(n.get("exp")) and n["value"].get("lit") == "other"]
+            plain_0x = templates == ["ByteStr([2, 48, 120, 192, 0], Cooked)"]
+            if fmt_macro and plain_0x:
+                fmt_macro = False
+                lits = ["0x"]
+                other_fmt = [x for x in other_fmt if x != "format"]
             ser_str = any(s == "serialize_str" for s in short)
             narrow = [s for s in short if s.startswith("as_u") or s.startswith("as_i") or s in ("low", "high")]
             casts = [n for n, _ in F.walk(sb["hir"]["value"]) if n.get("k") == "Cast"]
             ok = be and not other_order and hexenc and not other_fmt and not fmt_macro and ser_str and lits == ["0x"] and not narrow and not casts
+            # alternative writer: LowerHex formatting of the whole inner 256-bit integer (`format!("0x{:x}", self.0)` or
+            # `format!("{:#x}", self.0)`): every digit of the value is written and the reader accepts any digit count
+            lower_hex = any(n in ("core::fmt::rt::Argument::new_lower_hex", "core::fmt::rt::Argument::new_upper_hex") for n in names)
+            hex_templates = ("ByteStr([2, 48, 120, 192, 0], Cooked)", "ByteStr([193, 32, 0, 128, 96, 0], Cooked)")
+            arg_is_inner = False
+            for c, _ in F.calls(sb["hir"]["value"]):
+                if F.strip_generics(F.callee(c) or F.callee_def(c) or "") in ("core::fmt::rt::Argument::new_lower_hex", "core::fmt::rt::Argument::new_upper_hex") and c["args"]:
+                    a = F.strip(c["args"][0])
+                    lid = F.local_of(a)
+                    # format_args binds its arguments first: `match (&self.0,) { args => .. args.0 .. }`
+                    txt = str(T.term(c["args"][0], T.Env()))
+                    arg_is_inner = "ethnum::U256" in (c["args"][0].get("ty") or "")
+            if not ok and lower_hex and len(templates) == 1 and templates[0] in hex_templates and arg_is_inner and ser_str and not narrow and not casts and not other_order and not hexenc:
+                ok = True
             rep.oblige(
                 ok,
                 "R20.2",
@@ -192,7 +214,9 @@ def check(fx, rep, tier):
             mangling = [s for s in short if s in ("trim_start_matches", "strip_prefix", "to_lowercase", "to_uppercase", "rev", "reverse", "swap_bytes", "from_le_bytes", "to_be", "to_le", "truncate", "split_at", "get")]
             casts = [n for n, _ in F.walk(db["hir"]["value"]) if n.get("k") == "Cast"]
             str_in = any("std::string::String" in (n.get("ty") or "") or "&str" in (n.get("ty") or "") for n, _ in F.walk(db["hir"]["value"]) if n.get("s") == "Let" or n.get("p") == "Bind")
-            wraps = any(n.get("k") == "Call" and (F.path_def(n["f"]) or "").startswith(wrapper) for n, _ in F.walk(db["hir"]["value"]))
+            wraps = any(n.get("k") == "Call" and (F.path_def(n["f"]) or "").startswith(wrapper) for n, _ in F.walk(db["hir"]["value"])) or any(
+                n.get("k") == "Path" and (n.get("ctor_of") or n.get("def") or "").startswith(wrapper) and str(n.get("defkind", "")).startswith("Ctor") for n, _ in F.walk(db["hir"]["value"])
+            )
             ok = parse256 and not narrow and not mangling and not casts and wraps
             rep.oblige(
                 ok,
